@@ -149,11 +149,12 @@ Record worker := {
   w_pending : list (pid * list nat);          (* Worker.pending_result_requests *)
   w_nsent : nat;                              (* ghost: next message sequence number of this worker *)
   w_sentlog : list (pid * msg);               (* ghost: (target, message) emitted, oldest first *)
+  w_arrlog : list (pid * msg);                (* ghost: (target, message) of every DeliverMessage handled, oldest first *)
   w_dropped : list (pid * msg);               (* ghost: DeliverMessage for a process that does not exist *)
 }.
 Definition new_worker : worker :=
   {| w_procs := []; w_queue := []; w_spawning := []; w_selecting := []; w_awaited := []; w_awaiters := [];
-     w_pending := []; w_nsent := 0; w_sentlog := []; w_dropped := [] |}.
+     w_pending := []; w_nsent := 0; w_sentlog := []; w_arrlog := []; w_dropped := [] |}.
 
 (* a worker together with its two channel ends *)
 Record node := { n_w : worker; n_cmd : list cmd; n_evt : list event }.
@@ -161,19 +162,19 @@ Record node := { n_w : worker; n_cmd : list cmd; n_evt : list event }.
 Definition set_procs (w : worker) (ps : list (pid * proc)) : worker :=
   {| w_procs := ps; w_queue := w_queue w; w_spawning := w_spawning w; w_selecting := w_selecting w;
      w_awaited := w_awaited w; w_awaiters := w_awaiters w; w_pending := w_pending w; w_nsent := w_nsent w;
-     w_sentlog := w_sentlog w; w_dropped := w_dropped w |}.
+     w_sentlog := w_sentlog w; w_arrlog := w_arrlog w; w_dropped := w_dropped w |}.
 Definition set_sched (w : worker) (q sp se : list pid) : worker :=
   {| w_procs := w_procs w; w_queue := q; w_spawning := sp; w_selecting := se;
      w_awaited := w_awaited w; w_awaiters := w_awaiters w; w_pending := w_pending w; w_nsent := w_nsent w;
-     w_sentlog := w_sentlog w; w_dropped := w_dropped w |}.
+     w_sentlog := w_sentlog w; w_arrlog := w_arrlog w; w_dropped := w_dropped w |}.
 Definition set_book (w : worker) (aw : list pid) (awf : list (pid * list pid)) (pe : list (pid * list nat)) : worker :=
   {| w_procs := w_procs w; w_queue := w_queue w; w_spawning := w_spawning w; w_selecting := w_selecting w;
      w_awaited := aw; w_awaiters := awf; w_pending := pe; w_nsent := w_nsent w;
-     w_sentlog := w_sentlog w; w_dropped := w_dropped w |}.
-Definition set_ghost (w : worker) (n : nat) (sl dr : list (pid * msg)) : worker :=
+     w_sentlog := w_sentlog w; w_arrlog := w_arrlog w; w_dropped := w_dropped w |}.
+Definition set_ghost (w : worker) (n : nat) (sl al dr : list (pid * msg)) : worker :=
   {| w_procs := w_procs w; w_queue := w_queue w; w_spawning := w_spawning w; w_selecting := w_selecting w;
      w_awaited := w_awaited w; w_awaiters := w_awaiters w; w_pending := w_pending w; w_nsent := n;
-     w_sentlog := sl; w_dropped := dr |}.
+     w_sentlog := sl; w_arrlog := al; w_dropped := dr |}.
 
 Definition upd_proc (p : pid) (f : proc -> proc) (w : worker) : worker :=
   match alookup p (w_procs w) with
@@ -279,9 +280,10 @@ Definition handle_cmd (c : cmd) (w : worker) : result (worker * list event) :=
     (* Executor::notify_message, executor.rs:831 *)
     match alookup t (w_procs w) with
     | Some _ =>
-      Good (wake_selecting t (upd_proc t (fun pr => with_mail (p_mail pr ++ [m]) (p_arrived pr ++ [m]) (p_taken pr) pr) w), [])
+      Good (wake_selecting t (upd_proc t (fun pr => with_mail (p_mail pr ++ [m]) (p_arrived pr ++ [m]) (p_taken pr) pr)
+                                (set_ghost w (w_nsent w) (w_sentlog w) (w_arrlog w ++ [(t, m)]) (w_dropped w))), [])
     | None =>
-      Good (wake_selecting t (set_ghost w (w_nsent w) (w_sentlog w) (w_dropped w ++ [(t, m)])), [])
+      Good (wake_selecting t (set_ghost w (w_nsent w) (w_sentlog w) (w_arrlog w ++ [(t, m)]) (w_dropped w ++ [(t, m)])), [])
     end
   | CNotifySpawn p _ =>
     (* Executor::notify_spawn, executor.rs:734 *)
@@ -393,7 +395,7 @@ Definition run_slice (i : wid) (p : pid) (pr : proc) (d : did) (hint : list pid)
       | Some ASpawn => (mark_spawning p w1, [ESpawnA p])                       (* handle_spawn, executor.rs:1977 *)
       | Some (ADeliver t) =>                                                   (* handle_send, executor.rs:2028 *)
         let m := mkMsg p i (w_nsent w1) in
-        (set_ghost w1 (S (w_nsent w1)) (w_sentlog w1 ++ [(t, m)]) (w_dropped w1), [EDeliverA t m])
+        (set_ghost w1 (S (w_nsent w1)) (w_sentlog w1 ++ [(t, m)]) (w_arrlog w1) (w_dropped w1), [EDeliverA t m])
       | Some (AAwait ts) =>                                                    (* initialize_select, executor.rs:2164 *)
         let w' := upd_proc p (fun q => with_awaiting (fold_left (fun a t => aset t None a) ts (p_awaiting q)) q) w1 in
         (mark_selecting p w', [EAwaitA p ts])
